@@ -56,6 +56,20 @@ def check(drv, tier, rng, fails):
         k = len(ser.cell_to_children(c, b)); n += 1
         if k != ci.get_num_children(r, b):
             fails.append(Failure(f'len(cell_to_children({c},{b})) = {k} != get_num_children({r},{b}) = {ci.get_num_children(r, b)}', {'kind': 'nchildren', 'id': c, 'b': b}))
+    from refids import ref_id as _rid
+    for r in range(2, MAXV):
+        top = 4 ** (r - 1) - 1
+        for t6 in (0, 59, rng.randrange(60)):
+            for S in (0, top, top - rng.randrange(1, 300) if top > 300 else top):
+                c = _rid(t6, max(0, S), r)
+                for b in (r + 1, min(MAXV, r + 2)):
+                    try:
+                        k = len(ser.cell_to_children(c, b))
+                    except Exception as e:  # noqa
+                        fails.append(Failure(f'cell_to_children({c},{b}) raises {type(e).__name__} (get_num_children({r},{b}) = {ci.get_num_children(r, b)})', {'kind': 'nchildren', 'id': c, 'b': b})); continue
+                    n += 1
+                    if k != ci.get_num_children(r, b):
+                        fails.append(Failure(f'len(cell_to_children({c},{b})) = {k} != get_num_children({r},{b}) = {ci.get_num_children(r, b)}', {'kind': 'nchildren', 'id': c, 'b': b}))
     A = 4 * math.pi * 6371007.2 * 6371007.2
     prev = None
     for r in range(-1, 31):
